@@ -133,6 +133,22 @@ func (c *Ctx) doCallVals(st *State, fr *Frame, cc *ssa.CallCommon, instr ssa.Ins
 	}
 	c.atCallClauses(st, fr, cc, instr, fnv, args)
 	tgt := c.resolveCall(st, fr, cc, fnv, args)
+	switch tgt.key {
+	case "context.Context.Done":
+		c.declare("(declare-fun ctxdone (Int) Int)")
+		c.V.assumptions["A-CONTEXT: ctx.Done() yields only after cancellation/deadline, after which ctx.Err() != nil permanently; wall-clock time is not modelled"] = true
+		k(st, mk(SInt, "(ctxdone %s)", c.valAsTerm(tgt.args[0]).S))
+		return
+	case "context.Context.Err":
+		recv := c.valAsTerm(tgt.args[0])
+		h := c.heapCur(st, ctxDoneKey, arrSort(SBool))
+		e := c.fresh("ctxerr", SInt)
+		st.assume(implies(sel(h, recv, SBool), not(eq(e, tZero))))
+		nh := c.heapHavoc(st, ctxDoneKey, h.Sort)
+		st.assume(eq(nh, ite(not(eq(e, tZero)), Term{S: fmt.Sprintf("(store %s %s true)", h.S, recv.S), Sort: h.Sort}, h)))
+		k(st, e)
+		return
+	}
 	tgt.origins = make([]*Addr, len(tgt.args))
 	offA := len(tgt.args) - len(cc.Args)
 	for i, a := range cc.Args {
@@ -245,7 +261,7 @@ func (c *Ctx) havocKey(st *State, key string) {
 		switch key {
 		case chLen, chVal:
 			c.heapHavoc(st, key, arrSort(SInt))
-		case chClosed:
+		case chClosed, ctxDoneKey:
 			c.heapHavoc(st, key, arrSort(SBool))
 		case aliveKey:
 			old := c.aliveCur(st)
@@ -301,6 +317,10 @@ func (c *Ctx) calleeEnv(st *State, old *State, fr *Frame, tgt callTarget) *Env {
 	}
 	if tgt.self != nil {
 		env.vars["self"] = *tgt.self
+	}
+	if tgt.fn == nil && strings.HasPrefix(tgt.key, "dyn:") {
+		// the contract of a function value held in a variable of the caller may mention the caller's variables
+		env.frame = fr
 	}
 	return env
 }
@@ -476,6 +496,7 @@ func (c *Ctx) havocLoc(st *State, old *State, fr *Frame, env *Env, m ModLoc, tgt
 					st.fresh[nv.S] = true
 				}
 				c.store(st, fr, o, nv, token.NoPos)
+				env.vars["new_"+id.Name] = nv
 				done = true
 			}
 			if !done {
